@@ -1,0 +1,141 @@
+//go:build verif
+
+package keeper
+
+// Contracts for the deductive checker in /verif (comment-only; compiled only with -tags verif).
+
+/*@
+alias CoinParams github.com/haqq-network/haqq/x/coinomics/types.Params
+world coin_params CoinParams
+world coin_prev_ts int
+world coin_max_supply Coin
+
+// ---- leaf store accessors: assumed contracts over the abstract store view
+func (Keeper).GetParams
+    trusted
+    ensures result == coin_params
+func (Keeper).SetParams
+    trusted
+    modifies coin_params
+    ensures coin_params == params
+func (Keeper).GetPrevBlockTS
+    trusted
+    ensures result == coin_prev_ts
+func (Keeper).SetPrevBlockTS
+    trusted
+    modifies coin_prev_ts
+    ensures coin_prev_ts == prevBlockTS
+func (Keeper).GetMaxSupply
+    trusted
+    ensures result == coin_max_supply
+
+// ---- C13 helper: mint `coin` to the coinomics module account; a zero coin is a no-op
+func (Keeper).MintCoins
+    let cm = module_addr("coinomics")
+    let c1 = cone(coin.Denom, coin.Amount)
+    requires nonneg: coin.Amount >= 0
+    modifies bank_bal, bank_supply
+    call BankKeeper.MintCoins requires same: name == "coinomics" && amt == c1 && sctx == ctx && bk == k.bankKeeper
+    ensures zero: coin.Amount == 0 ==> result == nil && bank_supply == old(bank_supply) && bank_bal == old(bank_bal)
+    ensures minted: result == nil ==> bank_supply == cadd(old(bank_supply), c1)
+            && bank_bal == bal_put(old(bank_bal), cm, cadd(old(bank_bal)[cm], c1))
+    ensures failed: result != nil ==> bank_supply == old(bank_supply) && bank_bal == old(bank_bal)
+
+// ---- C13: one block of coinomics minting (the caller, EndBlocker, checks the enable flag)
+func (Keeper).MintAndAllocate
+    let bt = ctx_blocktime(ctx)
+    let now = time_unixmilli(bt)
+    let yr = time_year(bt)
+    let leap = (gorem(yr, 4) == 0 && gorem(yr, 100) != 0) || gorem(yr, 400) == 0
+    let yearMs = ite(leap, 31622400000, 31536000000)
+    let p = old(coin_params)
+    let prev = old(coin_prev_ts)
+    let denom = p.MintDenom
+    let supply = old(bank_supply)[denom]
+    let max = old(coin_max_supply).Amount
+    // bonded x rewardCoefficient% x elapsed / year, in 18-decimal fixed point with the SDK's rounding at each step
+    let coef = dec_quo(p.RewardCoefficient, dec_of(100))
+    let raw = dec_mul(dec_mul(dec_of(old(stk_bonded)), coef), dec_quo(dec_of(now) - dec_of(prev), dec_of(yearMs)))
+    let capped = dec_of(supply) + raw > dec_of(max)
+    let amount = ite(capped, dec_of(max) - dec_of(supply), raw)
+    let minted = dec_round(amount)
+    let m1 = cone(denom, minted)
+    let cm = module_addr("coinomics")
+    let fc = module_addr(k.feeCollectorName)
+    modifies bank_bal, bank_supply, coin_params, coin_prev_ts
+    // first block after activation: only the timestamp is recorded
+    ensures first: prev == 0 ==> result == nil && coin_prev_ts == now && bank_supply == old(bank_supply)
+            && bank_bal == old(bank_bal) && coin_params == p
+    // the block that would cross the maximum mints exactly the remainder ...
+    ensures remainder: capped ==> minted == max - supply
+    // ... and switches minting off; otherwise the parameters are untouched
+    ensures switch: prev != 0 ==> coin_params.MintDenom == p.MintDenom && coin_params.RewardCoefficient == p.RewardCoefficient
+            && coin_params.EnableCoinomics == (p.EnableCoinomics && !capped)
+    // the formula amount is minted (total supply grows by it) ...
+    ensures supply: prev != 0 && amount >= 0 && result == nil ==> bank_supply == cadd(old(bank_supply), m1)
+    // ... and all of it ends up with the fee collector
+    ensures collector: prev != 0 && amount >= 0 && result == nil
+            ==> bank_bal == bal_move(bal_put(old(bank_bal), cm, cadd(old(bank_bal)[cm], m1)), cm, fc, m1)
+    ensures collector2: prev != 0 && amount >= 0 && result == nil && fc != cm
+            ==> bank_bal[fc] == cadd(old(bank_bal)[fc], m1) && bank_bal[cm] == old(bank_bal)[cm]
+            && (forall a Addr :: a != fc ==> bank_bal[a] == old(bank_bal)[a])
+    // a negative amount (clock going backwards, negative coefficient, supply already above the maximum) mints nothing
+    ensures negative: prev != 0 && amount < 0 ==> result == nil && bank_supply == old(bank_supply) && bank_bal == old(bank_bal)
+    // the timestamp is recorded when the block was processed to the end; NOT when the amount was negative (what the
+    // code does; the property-level obligation `ts` that this violates is stated on EndBlocker, which has no callers)
+    ensures ts_minted: prev != 0 && amount >= 0 && result == nil ==> coin_prev_ts == now
+    ensures ts_skipped: prev != 0 && amount < 0 ==> coin_prev_ts == prev
+    ensures ts_failed: result != nil ==> coin_prev_ts == prev
+    // the cap: minting never lifts the supply above the maximum (and never lowers it, and touches no other denom)
+    ensures cap: supply <= max ==> bank_supply[denom] <= max
+    ensures mono: bank_supply[denom] >= supply
+    ensures denoms: forall d string :: d != denom ==> bank_supply[d] == old(bank_supply)[d]
+    ensures failed: result != nil ==> prev != 0 && amount >= 0 && (bank_supply == old(bank_supply) || bank_supply == cadd(old(bank_supply), m1))
+    call Keeper.MintCoins requires amount: coin.Denom == denom && coin.Amount == minted
+    call SendCoinsFromModuleToModule requires all: senderModule == "coinomics" && recipientModule == k.feeCollectorName && amt == m1
+
+// ---- C13: end of block. Property: with coinomics enabled the block mints the formula amount to the fee collector,
+// never above the maximum; nothing happens when disabled or on the first block after activation.
+func (Keeper).EndBlocker
+    let bt = ctx_blocktime(ctx)
+    let now = time_unixmilli(bt)
+    let yr = time_year(bt)
+    let leap = (gorem(yr, 4) == 0 && gorem(yr, 100) != 0) || gorem(yr, 400) == 0
+    let yearMs = ite(leap, 31622400000, 31536000000)
+    let p = old(coin_params)
+    let prev = old(coin_prev_ts)
+    let denom = p.MintDenom
+    let supply = old(bank_supply)[denom]
+    let max = old(coin_max_supply).Amount
+    // bonded x rewardCoefficient% x elapsed / year, in 18-decimal fixed point with the SDK's rounding at each step
+    let coef = dec_quo(p.RewardCoefficient, dec_of(100))
+    let raw = dec_mul(dec_mul(dec_of(old(stk_bonded)), coef), dec_quo(dec_of(now) - dec_of(prev), dec_of(yearMs)))
+    let capped = dec_of(supply) + raw > dec_of(max)
+    let amount = ite(capped, dec_of(max) - dec_of(supply), raw)
+    let minted = dec_round(amount)
+    let m1 = cone(denom, minted)
+    let cm = module_addr("coinomics")
+    let fc = module_addr(k.feeCollectorName)
+    let on = p.EnableCoinomics
+    let done = bank_supply == cadd(old(bank_supply), m1) && coin_prev_ts == now
+            && bank_bal == bal_move(bal_put(old(bank_bal), cm, cadd(old(bank_bal)[cm], m1)), cm, fc, m1)
+    // the bank keeper refused the mint or the transfer (error only logged): timestamp kept, at most the mint happened
+    let refused = coin_prev_ts == prev && (bank_supply == old(bank_supply) || bank_supply == cadd(old(bank_supply), m1))
+    modifies bank_bal, bank_supply, coin_params, coin_prev_ts
+    call MintAndAllocate requires enabled: old(coin_params).EnableCoinomics
+    ensures disabled: !on ==> bank_supply == old(bank_supply) && bank_bal == old(bank_bal) && coin_params == p && coin_prev_ts == prev
+    ensures first: on && prev == 0 ==> coin_prev_ts == now && bank_supply == old(bank_supply) && bank_bal == old(bank_bal) && coin_params == p
+    ensures minted: on && prev != 0 && amount >= 0 ==> done || refused
+    ensures collector: on && prev != 0 && amount >= 0 && fc != cm && !refused
+            ==> bank_bal[fc] == cadd(old(bank_bal)[fc], m1) && bank_bal[cm] == old(bank_bal)[cm]
+            && (forall a Addr :: a != fc ==> bank_bal[a] == old(bank_bal)[a])
+    ensures remainder: capped ==> minted == max - supply
+    ensures switch: on && prev != 0 ==> coin_params.MintDenom == p.MintDenom && coin_params.RewardCoefficient == p.RewardCoefficient
+            && coin_params.EnableCoinomics == !capped
+    ensures negative: on && prev != 0 && amount < 0 ==> bank_supply == old(bank_supply) && bank_bal == old(bank_bal)
+    // elapsed is measured between consecutive block timestamps: every enabled block (after the first) records its time
+    ensures ts: on && prev != 0 ==> coin_prev_ts == now || refused && amount >= 0
+    ensures cap: supply <= max ==> bank_supply[denom] <= max
+    ensures mono: bank_supply[denom] >= supply
+    ensures denoms: forall d string :: d != denom ==> bank_supply[d] == old(bank_supply)[d]
+@*/
